@@ -240,6 +240,22 @@ def check(ctx):
     ctx.rule("R6", "get_device returns the first element whose key equals the argument; devices lists the keys of the same list")
     ctx.rule("R8", "the inventory is taken from the pack that is loaded now: on both structure classes, built by their own constructors, build_accessors(config, log) leaves exactly the items of that pair (log item wins a name clash) and that pair's output / device / demand lists - also when another pair was loaded before (nothing of an earlier pack survives a reload, so no sensor or device is offered for an item the spa does not have)")
     structure_tables(ctx, repo, "R8")
+    ctx.rule("R10", "keys, unique ids and lookup on the facade as built: for the richest shipped (config, log) pair of every platform both facades are built by their own constructors on a model of that pair (vlib/buildmodel.py); the keys of all automation devices are pairwise distinct, so are their unique ids, and get_device(key) returns that very device - also for sensors whose names share a prefix ('Filter Status:Clean' / 'Filter Status:Purge')")
+    from ..buildmodel import inventories as _inventories
+    n10 = 0
+    for (plat, cs_, ls_, fcls_), (r_, inv_) in sorted(_inventories(repo, T).items()):
+        if r_ is not None or inv_ is None:
+            continue      # a pair whose facade cannot be built is C11's finding
+        n10 += 1
+        keys_ = [x[0] for x in inv_]
+        dup_k = sorted({k for k in keys_ if keys_.count(k) > 1}, key=str)
+        uids_ = [x[1] for x in inv_]
+        dup_u = sorted({u for u in uids_ if uids_.count(u) > 1}, key=str)
+        wrong = [x[0] for x in inv_ if not x[3]]
+        ctx.ob("R10", f"{fcls_}::{plat}::keys-distinct-and-lookup", not dup_k and not dup_u and not wrong,
+               f"{fcls_} built on ({cs_}, {ls_}) presents {len(inv_)} devices: duplicate keys {dup_k[:4]}, duplicate unique ids {dup_u[:3]}, get_device(key) returns another device for {wrong[:4]}",
+               repo.method(fcls_, "get_device").loc, sample={"rule": "R10", "facade": fcls_, "platform": plat, "devices": len(inv_)} if plat.startswith("inyt") else None)
+    ctx.floor("R10", "facade inventories interpreted", n10, 10)
     ctx.rule("R9", "a pump's mode list is its own demand item's label list, whatever other pumps exist in the process: two GeckoPump objects built by the constructor in one interpreter - same device key and demand tag, different label lists (as for P3 on inXM vs the other platforms) - each report their own list, in either order of asking")
     from ..absint import ClassRef as _CR, Interp as _I, PyRaise as _PR, Undecided as _U
     from ..facademodel import Rec as _Rec, accessor as _acc, model_facade as _mf
